@@ -2,6 +2,7 @@ SPECIFICATION Spec
 CONSTANTS MaxLen = 4
           Caps = {1, 2, 3, 8}
           MaxIdle = 0
+          WithInterrupt = FALSE
           FreeAppend = TRUE
           Dev = {}
 VIEW view
